@@ -14,6 +14,14 @@ def main():
     sys.setrecursionlimit(4000)
     with open(spec_path) as f:
         spec = json.load(f)
+    try:
+        import resource
+
+        # a generated program must not be able to exhaust the machine's memory
+        lim = int(os.environ.get("VERIF_WORKER_MEM_GB", "6")) << 30
+        resource.setrlimit(resource.RLIMIT_AS, (lim, lim))
+    except Exception:
+        pass
     faulthandler.enable()
     faulthandler.dump_traceback_later(spec.get("hang_dump_s", 300), exit=False)
     import ptera
